@@ -15,7 +15,9 @@ EXCLUDED_DIRS = ["node_modules", "__pycache__", ".venv", "venv", "build", "dist"
 LOOKALIKE_DIRS = ["builds", "mydist", "venv2", "a.egg-info.bak", "node_modules2", "_build", "dist-info", "gitx"]
 PLAIN_DIRS = ["pkg", "core", "util", "api", "data", ".hidden", ".config", "lib", "library", "lib2", "gen", "generated", "vendor", "docs"]
 ARTEFACT_EXT = [".pyc", ".pyo", ".pyd", ".so", ".dll", ".dylib", ".class", ".o", ".obj"]
-SRC_NAMES = ["mod.py", "util.ts", "core.rs", "view.js", "helper.py", "item_gen.py", "auto_gen.py"]
+SRC_NAMES = ["mod.py", "util.ts", "core.rs", "view.js", "helper.py", "item_gen.py", "auto_gen.py",
+             # dotted names: an artefact or excluded word in the MIDDLE of the name does not make the file an artefact
+             "user.class.ts", "mesh.obj.py", "loader.o.js", "plugin.so.rs", "cache.pyc.py", "types.d.ts", "app.min.js", "v1.2.py", "build.py", "dist.ts"]
 OTHER_NAMES = ["notes.txt", "data.json", "README.md", "build", "dist", "venv", "LICENSE", "style.css", "lib.py", "libfoo.txt"]
 
 
